@@ -4,7 +4,7 @@ import pyspec
 from . import C01, common
 
 ID = "C09"
-LEVEL = "other"
+LEVEL = "proof"
 RULE = ("random programs over 4-6 variables mixing every modelled operation with receivers of precision 0 and > 0 and all "
         "modes; after every step the receiver's precision and mode are compared with the documented rule and every other "
         "variable with its previous full state (class, sign, precision, mode, accuracy, exponent, raw words); "
